@@ -61,3 +61,11 @@ Example c33_nonlink_value_breaks :
   exists acts s, run init acts = Some s /\ quiescent s = true /\
                  links s <> [] /\ disposed s = false /\ live s = 0%nat.
 Proof. exact nonlink_value_breaks. Qed.
+
+(* the harness' `Yield` (fold of code_step over drain_actions, HoldOpen/Run.v) is
+   a path of the transition system above and ends quiescent *)
+Theorem c33_yield_is_a_run : forall s,
+  exists s', run s (drain_actions s) = Some s' /\
+             fold_left code_step (drain_actions s) s = s' /\ quiescent s' = true.
+Proof. exact drain_fold. Qed.
+Print Assumptions c33_yield_is_a_run.
